@@ -154,8 +154,8 @@ Print Assumptions C17_generator_closed_on_every_branch.
    resumes the query k times - it is left because the generator ended, because a RecursionError came up through its
    frames, or because the projection function raised at the k-th answer - and the finally block closes what is left.
    For every program, heap, fuel n, depth d and every k, the heap afterwards is the heap before the call. *)
-Theorem C17_vars_unbound_after : forall (E P : Type) (prog : P -> code (term * term) E P * E) n d k h c e h',
-  eb_final_heap prog n d k h c e = Some h' -> h' = h.
+Theorem C17_vars_unbound_after : forall (E P : Type) (prog : P -> code (term * term) E P * E) (gho : E -> nat) n d k h c e h',
+  eb_final_heap prog gho n d k h c e = Some h' -> h' = h.
 Proof. exact eb_heap_restored. Qed.
 Print Assumptions C17_vars_unbound_after.
 
@@ -230,7 +230,7 @@ Proof. vm_compute. repeat split. Qed.
 (* the heap theorem on the example of C03: a query abandoned after its first answer (the projection raised) and the
    same query ended by an exception three frames down both leave the heap [(7, keep)] they started from *)
 Example C17_heap_nonvacuous :
-  eb_final_heap ex_prog2 100 10 1 [(7, A "keep")] (fst (ex_prog2 1)) tt = Some [(7, A "keep")] /\
-  eb_final_heap ex_prog2 100 10 2 [(7, A "keep")] (fst (ex_prog2 1)) tt = Some [(7, A "keep")] /\
-  eb_final_heap ex_prog2 100 1 1 [(7, A "keep")] (fst (ex_prog2 1)) tt = Some [(7, A "keep")].
+  eb_final_heap ex_prog2 (fun _ => 0) 100 10 1 [(7, A "keep")] (fst (ex_prog2 1)) tt = Some [(7, A "keep")] /\
+  eb_final_heap ex_prog2 (fun _ => 0) 100 10 2 [(7, A "keep")] (fst (ex_prog2 1)) tt = Some [(7, A "keep")] /\
+  eb_final_heap ex_prog2 (fun _ => 0) 100 1 1 [(7, A "keep")] (fst (ex_prog2 1)) tt = Some [(7, A "keep")].
 Proof. vm_compute. repeat split. Qed.
